@@ -9,6 +9,7 @@ pub struct Args {
     pub nshards: usize,
     pub out: String,
     pub mode: String,
+    pub cases_only: bool,
     pub extra: Vec<String>,
 }
 
@@ -22,6 +23,7 @@ impl Args {
             nshards: 1,
             out: ".".into(),
             mode: "gen".into(),
+            cases_only: false,
             extra: vec![],
         };
         let mut it = std::env::args().skip(1);
@@ -34,6 +36,7 @@ impl Args {
                 "--shard" => a.shard = it.next().unwrap().parse().unwrap(),
                 "--nshards" => a.nshards = it.next().unwrap().parse().unwrap(),
                 "--out" => a.out = it.next().unwrap(),
+                "--cases-only" => a.cases_only = true,
                 _ => a.extra.push(x),
             }
         }
@@ -53,6 +56,7 @@ pub struct Out {
     counter: usize,
     pub written: usize,
     eval: fn(&str) -> String,
+    cases_only: bool,
 }
 
 impl Out {
@@ -68,6 +72,7 @@ impl Out {
             counter: 0,
             written: 0,
             eval,
+            cases_only: args.cases_only,
         }
     }
 
@@ -93,7 +98,7 @@ impl Out {
     pub fn case(&mut self, case: impl FnOnce() -> String) {
         if self.mine() {
             let c = case();
-            let r = (self.eval)(&c);
+            let r = if self.cases_only { String::new() } else { (self.eval)(&c) };
             self.emit(&c, &r);
         }
     }
@@ -102,7 +107,7 @@ impl Out {
     /// identically in every shard call this for every case).
     pub fn case_str(&mut self, c: &str) {
         if self.mine() {
-            let r = (self.eval)(c);
+            let r = if self.cases_only { String::new() } else { (self.eval)(c) };
             self.emit(c, &r);
         }
     }
